@@ -293,14 +293,17 @@ impl<'ccx, 'tcx: 'ccx> TyGenContext<'ccx, 'tcx> {
         }
 
         let param_decls = {
-            if matches!(
-                method.attrs.special_method,
-                Some(hir::SpecialMethod::Constructor) | Some(hir::SpecialMethod::Setter(_)) // We only need type info for constructors or certain setters
-            ) && !matches!(
-                // and even then, only when the type isn't opaque
-                id,
-                TypeId::Opaque(_)
-            ) {
+            // We only need type info for constructors or certain setters, and even then, only when the type
+            // isn't opaque -- except for a static setter, which is wrapped in a lambda that spells out its
+            // parameters whatever kind of type it belongs to
+            let needs_decls = match method.attrs.special_method {
+                Some(hir::SpecialMethod::Constructor) => !matches!(id, TypeId::Opaque(_)),
+                Some(hir::SpecialMethod::Setter(_)) => {
+                    !matches!(id, TypeId::Opaque(_)) || method.param_self.is_none()
+                }
+                _ => false,
+            };
+            if needs_decls {
                 Some(
                     method
                         .params
